@@ -147,6 +147,16 @@ func classRef(name, vocabPrefix string) map[string]interface{} {
 	return map[string]interface{}{"type": "owl:Class", "url": "https://ext.example/ref#" + name, "name": n}
 }
 
+// goToolWordsForTypes / goToolWordsForProps: type names are lower-cased for the
+// file name, property names are used as they are. The first vocabulary (the
+// only one of the quick tier) takes its names from the front of each list.
+var goToolWordsForTypes = []string{"Unit_test", "Hurd", "Sparc", "Windows", "Zos", "Test",
+	"Js", "Linux", "Arm64", "Wasm", "Aix", "Android", "Darwin", "Dragonfly", "Freebsd", "Illumos", "Ios", "Nacl", "Netbsd", "Openbsd", "Plan9", "Solaris", "Wasip1",
+	"Amd64", "Amd64p32", "Arm", "Armbe", "Arm64be", "Loong64", "Mips", "Mipsle", "Mips64", "Mips64le", "Mips64p32", "Mips64p32le", "Ppc", "Ppc64", "Ppc64le", "Riscv", "Riscv64", "S390", "S390x", "Sparc64", "I386_386"}
+var goToolWordsForProps = []string{"runs_on_windows_arm64", "ios", "riscv", "nacl", "ppc", "s390", "speed_test", "armbe",
+	"test", "amd64", "android", "plan9", "s390x", "hurd", "zos", "sparc", "sparc64", "amd64p32", "arm64be", "mips64p32", "mips64p32le", "aix", "darwin", "dragonfly", "freebsd", "illumos", "js", "linux", "netbsd", "openbsd", "solaris", "wasip1", "windows",
+	"arm", "arm64", "loong64", "mips", "mipsle", "mips64", "mips64le", "ppc64", "ppc64le", "riscv64", "wasm", "built_for_386"}
+
 func genExtension(g *prng.R, idx int) extSpec {
 	nT := g.Range(1, 6)
 	nP := g.Range(1, 8)
@@ -164,8 +174,14 @@ func genExtension(g *prng.R, idx int) extSpec {
 	}
 	{
 		// names are arbitrary: among them words that mean something to the
-		// go tool when a file name ends in them (_test.go, _GOOS.go, _GOARCH.go)
-		es.Types[0] = []string{"Unit_test", "Test", "Windows", "Js", "Linux", "Arm64", "Wasm"}[idx%7]
+		// go tool when a file name ends in them (_test.go, _GOOS.go,
+		// _GOARCH.go) - every operating system and architecture go/build
+		// knows, current or not, over the types and properties of all
+		// generated vocabularies (the first vocabulary has six types and
+		// up to eight properties)
+		for i := range es.Types {
+			es.Types[i] = goToolWordsForTypes[(idx*len(es.Types)+i)%len(goToolWordsForTypes)]
+		}
 	}
 	ref := func(name string) map[string]interface{} {
 		for _, t := range es.Types {
@@ -323,9 +339,7 @@ func genExtension(g *prng.R, idx int) extSpec {
 	}
 	for i := 0; i < nP; i++ {
 		name := fmt.Sprintf("vx%c%dProp", strings.ToLower(letters)[(idx+i)%len(letters)], i)
-		if i == 0 {
-			name = []string{"runs_on_windows_arm64", "ios", "test", "amd64", "android", "plan9", "s390x", "speed_test"}[idx%8]
-		}
+		name = goToolWordsForProps[(idx*nP+i)%len(goToolWordsForProps)]
 		es.Props = append(es.Props, name)
 		typ := []interface{}{"rdf:Property"}
 		if g.Bool() {
